@@ -223,7 +223,7 @@ func runC07(c *ev.Ctx) {
 			objs = append(objs, t)
 		}
 	}
-	c.Rule(fmt.Sprintf("(1) full square: every ordered pair of list-rooted trees and every ordered pair of object-rooted trees with <= %d nodes, depth <= 3 over near-miss leaves {nil,true,false,0,1,0.0,1.0,\"\",\"1\"} (+ empty list/object) and keys {a,b,c}: %d lists, %d objects; the right operand built through 6 construction routes (keys in listed order, reverse order, dirty history, shared field objects, derived structures, structurally equal nested containers as ONE shared instance), the left operand alternating between plain, shared-field and shared-instance construction. (2) every tree with <= %d nodes paired with each of its single-point edits at any depth (leaf kind changed, element appended/removed/swapped, key renamed/added/removed, container kind changed), both directions, all routes. (3) the same for trees with <= %d nodes, depth <= 4 over leaves {1,\"a\"}. Oracle: reference structural equality on the specifications (kind-strict, key-order-insensitive); equality with an equivalence relation on every ordered pair implies reflexivity, symmetry and transitivity on the enumerated set. Non-trivial = distinct ordered pair of different specifications (or different build histories of one specification).", sqNodes, len(lists), len(objs), neighNodes, deepNodes))
+	c.Rule(fmt.Sprintf("(1) full square: every ordered pair of list-rooted trees and every ordered pair of object-rooted trees with <= %d nodes, depth <= 3 over near-miss leaves {nil,true,false,0,1,0.0,1.0,\"\",\"1\"} (+ empty list/object) and keys {a,b,c}: %d lists, %d objects; the right operand built through 6 construction routes (keys in listed order, reverse order, dirty history, shared field objects, derived structures, structurally equal nested containers as ONE shared instance), the left operand alternating between plain, shared-field and shared-instance construction. (2) every tree with <= %d nodes paired with each of its single-point edits at any depth (leaf kind changed, element appended/removed/swapped, key renamed/added/removed, container kind changed), both directions, all routes. (3) the same for trees with <= %d nodes, depth <= 4 over leaves {1,\"a\"}. (4) Equals re-asked after in-place edits: every tree of the square x every container in it, two equal builds, edited in one / in both / undone. Oracle: reference structural equality on the specifications (kind-strict, key-order-insensitive); equality with an equivalence relation on every ordered pair implies reflexivity, symmetry and transitivity on the enumerated set. Non-trivial = distinct ordered pair of different specifications (or different build histories of one specification).", sqNodes, len(lists), len(objs), neighNodes, deepNodes))
 	c.Assume("NaN is excluded (the statement says NaN-free data)", "List.Equals takes a List and Object.Equals an Object, so roots of different kinds cannot be compared; kind mismatches are exercised at nested positions")
 	stop := func() bool { return c.Expired() || c.TooMany() }
 
@@ -384,6 +384,7 @@ func runC07(c *ev.Ctx) {
 	editPhase(e, neighNodes, 3, "single-edit neighbours (near-miss leaves)")
 	editPhase(spec.NewEnum([]*spec.V{spec.I(1), spec.S("a")}, []string{"a", "b"}), deepNodes, 4, "single-edit neighbours (deep trees)")
 	c07ScalarSquare(c)
+	c07AfterEdits(c, lists, objs)
 	if c.Expired() {
 		c.Cut("deadline reached")
 	}
